@@ -46,6 +46,24 @@ private theorem length_sortAscAmt (l : List (Addr × Nat)) : (Sys.sortAscAmt l).
     simp only [Sys.sortAscAmt, List.foldr_cons] at ih ⊢
     rw [length_insAscAmt, ih]; simp
 
+private theorem sum_insAscAmt (x : Addr × Nat) (l : List (Addr × Nat)) :
+    ((Sys.insAscAmt x l).map (·.2)).sum = x.2 + (l.map (·.2)).sum := by
+  induction l with
+  | nil => simp [Sys.insAscAmt]
+  | cons z zs ih =>
+    simp only [Sys.insAscAmt]
+    split
+    · simp
+    · simp only [List.map_cons, List.sum_cons, ih]; omega
+
+private theorem sum_sortAscAmt (l : List (Addr × Nat)) :
+    ((Sys.sortAscAmt l).map (·.2)).sum = (l.map (·.2)).sum := by
+  induction l with
+  | nil => simp [Sys.sortAscAmt]
+  | cons z zs ih =>
+    simp only [Sys.sortAscAmt, List.foldr_cons] at ih ⊢
+    rw [sum_insAscAmt, ih]; simp
+
 /-- **The list the registry answers is the registry.** `GetValidatorsForDelegation` — what the hub
     distributes every bond over, and what a removal redelegates to — lists exactly the validators
     the registry stores, once each entry: a validator is on the list iff it is registered (whatever
@@ -149,6 +167,140 @@ theorem C13_remove_validator (s : Sys) (sender v : Addr) (r' : RegSt) (ms : List
         · have : (!decide (s.reg.hub = hubA ∧ s.chain.delegSet v = true)) = true := by simp [hset]
           rw [if_pos this] at hm
           injection hm with hm; left; exact hm.symm
+
+private theorem plan_index (vs : List (Addr × Nat)) (p : List Nat) (t : Addr × Nat)
+    (ht : t ∈ (vs.zip p).filterMap (fun x => if x.2 = 0 then none else some (x.1.1, x.2))) :
+    ∃ j, nth p j = t.2 ∧ ∃ y ∈ vs, y.1 = t.1 ∧ nth (vs.map (·.2)) j = y.2 := by
+  induction vs generalizing p with
+  | nil => simp at ht
+  | cons v vs ih =>
+    cases p with
+    | nil => simp at ht
+    | cons a as =>
+      simp only [List.zip_cons_cons, List.filterMap_cons] at ht
+      split at ht
+      · rename_i hnone
+        obtain ⟨j, h1, y, hy, h2, h3⟩ := ih as ht
+        exact ⟨j + 1, by simpa [nth] using h1, y, List.mem_cons_of_mem _ hy, h2, by simpa [nth] using h3⟩
+      · rename_i b hsome
+        rcases List.mem_cons.mp ht with hh | hh
+        · split at hsome
+          · cases hsome
+          · injection hsome with hsome
+            subst hh; subst hsome
+            exact ⟨0, by simp [nth], v, List.mem_cons_self .., rfl, by simp [nth]⟩
+        · obtain ⟨j, h1, y, hy, h2, h3⟩ := ih as hh
+          exact ⟨j + 1, by simpa [nth] using h1, y, List.mem_cons_of_mem _ hy, h2, by simpa [nth] using h3⟩
+
+/-- **A follow-up Redelegations** (public; for stake a removal had to leave behind): refused for a
+    registered validator; otherwise the registry state is untouched and — when the hub has a
+    delegation there that the chain allows to move — the registry asks the hub to redelegate exactly
+    the whole delegation *first* and to update the index *second*, the plan going in positive
+    amounts to registered validators and lifting none of them above the even share (rounded up) of
+    what the registered validators hold plus the stake moved (C12). -/
+theorem C13_redelegations (s : Sys) (sender v : Addr) (r' : RegSt) (ms : List Msg)
+    (hx : s.regExec sender (.redelegations v) = .ok (r', ms)) :
+    s.reg.vals.contains v = false ∧ r' = s.reg ∧
+    (ms = [] ∨ ∃ plan, ms = [Msg.wasm regA s.reg.hub (.hub (.redelegateProxy v plan)) [],
+                              Msg.wasm regA s.reg.hub (.hub .updateGlobalIndex) []] ∧
+        (plan.map (·.2)).sum = s.chain.deleg v ∧ s.reg.hub = hubA ∧ s.chain.delegSet v = true ∧
+        ∀ t ∈ plan, t.1 ∈ s.reg.vals ∧ 0 < t.2 ∧
+          ∃ held, (t.1, held) ∈ s.regValidatorsRaw ∧
+            held + t.2 ≤ ((s.regValidatorsRaw.map (·.2)).sum + s.chain.deleg v + s.reg.vals.length - 1) / s.reg.vals.length) := by
+  simp only [Sys.regExec] at hx
+  exc_norm at hx
+  split at hx
+  · cases hx
+  · rename_i hc
+    split at hx
+    · cases hx
+    · rename_i msgs hm
+      injection hx with hx; injection hx with h1 h2; subst h1; subst h2
+      have same : ({ s with reg := { s.reg with vals := s.reg.vals } } : Sys) = s := by cases s; rfl
+      rw [same] at hm
+      refine ⟨by simpa using hc, rfl, ?_⟩
+      by_cases hset : s.reg.hub = hubA ∧ s.chain.delegSet v = true
+      · have hh : s.reg.hub = hubA := hset.1
+        simp only [hset, and_self, decide_true, Bool.not_true, Bool.false_eq_true, if_false, hh, if_true] at hm
+        by_cases hnr : s.chain.noRedelegate v = true ∧ 0 < s.chain.deleg v
+        · rw [if_pos hnr] at hm; injection hm with hm; left; exact hm.symm
+        · rw [if_neg hnr] at hm
+          split at hm
+          · cases hm
+          · rename_i p hp
+            injection hm with hm
+            right
+            have hcv := C12_deleg_conserves _ _ p.1 p.2 (by rw [hp])
+            refine ⟨_, by rw [hh]; exact hm.symm, ?_, hset.1, hset.2, ?_⟩
+            · rw [plan_sum _ _ (by simpa using hcv.2.2), hcv.2.1]
+            · intro t ht
+              have tg := plan_targets _ _ t ht
+              obtain ⟨j, hj, y, hy, hy1, hy2⟩ := plan_index _ _ t ht
+              have hyraw : y ∈ s.regValidatorsRaw := (mem_sortAscAmt _ _).mp hy
+              have hreg : t.1 ∈ s.reg.vals := by
+                simp only [Sys.regValidatorsRaw, List.mem_map] at hyraw
+                obtain ⟨w, hw, hwe⟩ := hyraw
+                rw [← hy1, ← hwe]; exact hw
+              refine ⟨hreg, tg.2, y.2, by rw [← hy1]; exact hyraw, ?_⟩
+              have bal := (C12_deleg_balanced _ _ p.1 p.2 (by rw [hp]) j).2 (by rw [hj]; exact tg.2)
+              rw [hj, hy2] at bal
+              have hl : ((Sys.sortAscAmt s.regValidatorsRaw).map (·.2)).length = s.reg.vals.length := by
+                rw [List.length_map, length_sortAscAmt]; simp [Sys.regValidatorsRaw]
+              have hs : ((Sys.sortAscAmt s.regValidatorsRaw).map (·.2)).sum = (s.regValidatorsRaw.map (·.2)).sum :=
+                sum_sortAscAmt _
+              rw [hl, hs] at bal
+              exact bal
+      · have : (!decide (s.reg.hub = hubA ∧ s.chain.delegSet v = true)) = true := by simp [hset]
+        rw [if_pos this] at hm
+        injection hm with hm; left; exact hm.symm
+
+/-- ... and the plan of a RemoveValidator is balanced in the same sense: no remaining validator is
+    lifted above the even share (rounded up) of what the remaining validators hold plus the stake
+    moved. -/
+theorem C13_remove_plan_balanced (s : Sys) (sender v : Addr) (r' : RegSt) (plan : List (Addr × Nat))
+    (hx : s.regExec sender (.remove v) = .ok (r', [Msg.wasm regA s.reg.hub (.hub (.redelegateProxy v plan)) [],
+                              Msg.wasm regA s.reg.hub (.hub .updateGlobalIndex) []])) :
+    ∀ t ∈ plan, ∃ held, (t.1, held) ∈ ({ s with reg := r' } : Sys).regValidatorsRaw ∧
+      held + t.2 ≤ ((({ s with reg := r' } : Sys).regValidatorsRaw.map (·.2)).sum + s.chain.deleg v + r'.vals.length - 1) / r'.vals.length := by
+  simp only [Sys.regExec] at hx
+  exc_norm at hx
+  split at hx
+  · cases hx
+  · split at hx
+    · cases hx
+    · split at hx
+      · cases hx
+      · rename_i msgs hm
+        injection hx with hx; injection hx with h1 h2; subst h1
+        by_cases hset : s.reg.hub = hubA ∧ s.chain.delegSet v = true
+        · have hh : s.reg.hub = hubA := hset.1
+          simp only [hset, and_self, decide_true, Bool.not_true, Bool.false_eq_true, if_false, hh, if_true] at hm
+          by_cases hnr : s.chain.noRedelegate v = true ∧ 0 < s.chain.deleg v
+          · rw [if_pos hnr] at hm; injection hm with hm; rw [← hm] at h2; cases h2
+          · rw [if_neg hnr] at hm
+            split at hm
+            · cases hm
+            · rename_i p hp
+              injection hm with hm
+              rw [← hm, hh] at h2
+              injection h2 with h2 _
+              injection h2 with _ _ h2 _
+              injection h2 with h2
+              injection h2 with _ h2
+              subst h2
+              simp only [hh]
+              intro t ht
+              have tg := plan_targets _ _ t ht
+              obtain ⟨j, hj, y, hy, hy1, hy2⟩ := plan_index _ _ t ht
+              have hyraw := (mem_sortAscAmt _ _).mp hy
+              refine ⟨y.2, by rw [← hy1]; exact hyraw, ?_⟩
+              have bal := (C12_deleg_balanced _ _ p.1 p.2 (by rw [hp]) j).2 (by rw [hj]; exact tg.2)
+              rw [hj, hy2] at bal
+              rw [List.length_map, length_sortAscAmt, sum_sortAscAmt] at bal
+              simpa [Sys.regValidatorsRaw] using bal
+        · have : (!decide (s.reg.hub = hubA ∧ s.chain.delegSet v = true)) = true := by simp [hset]
+          rw [if_pos this] at hm
+          injection hm with hm; rw [← hm] at h2; cases h2
 
 /-- The hub's proxy accepts only the registry and forwards the plan one-to-one as Redelegate
     messages from the removed validator. -/
